@@ -161,10 +161,26 @@ def gen_spec(rng, fmt, want=None):
     if fmt in ('v2', 'v3'):
         spec['dup'] = rng.random() < 0.5
         spec['keepdims'] = rng.random() < 0.5
+    if fmt == 'v2':
+        spec['old'] = rng.random() < 0.4          # version 2.0: centre = RFE7 LO1 frequency - 4200 MHz
+        spec['centre'] = rng.choice([1822e6, 1328e6])
     if fmt == 'v3':
-        spec['lower'] = rng.random() < 0.4
-        if spec['lower']:
+        # the frequency axis: receiver band, bandwidth attribute (incl. the faulty CBF value), L0 center_freq
+        # attribute, centre_freq= argument.  'fake' = UHF receiver behind the 856 MHz digitiser: flipped spectrum
+        axis = rng.choice(['l', 'l', 'fake', 'fake', 'fake_bug', 'uhf', 'l_bug', 'none', 's'])
+        spec['axis'] = axis
+        spec['band'] = dict(l='l', l_bug='l', fake='u', fake_bug='u', uhf='u', none='', s='s')[axis]
+        if axis in ('fake', 'fake_bug', 'l_bug'):
             spec['F'] = rng.choice([2, 4, 8])
+            spec['bandwidth'] = 857152196.0 if axis.endswith('_bug') else 856e6
+        elif axis == 'uhf':
+            spec['bandwidth'] = 544e6 / 4096 * spec['F']
+        else:
+            spec['bandwidth'] = 856e6 / 4096 * spec['F']
+        spec['lower'] = axis in ('fake', 'fake_bug')
+        spec['l0_centre'] = rng.choice([None, None, None, 1100e6])
+        spec['centre_param'] = rng.choice([None, None, 1284e6, 950e6]) if axis not in ('none', 's') else \
+            rng.choice([None, 1284e6, 1284e6])
         spec['centroid'] = rng.random() < 0.4
         spec['cbf_div'] = rng.choice([1, 2, 4])
     if fmt == 'v4':
@@ -371,7 +387,8 @@ class Fixture:
                 ants = ('ant1', 'ant2', 'ant3')[:spec['nants']]
                 fn = os.path.join(self.tmp, '1300000000.h5')
                 self.st, _, ts = cf.write_v2(fn, T=T, F=F, ants=ants, dt=dt, acts=spec['acts'], targets=spec['targets'],
-                                             labels=spec['labels'], dup_last=self.dup, grid4=grid4, hist=hist)
+                                             labels=spec['labels'], dup_last=self.dup, grid4=grid4, hist=hist,
+                                             old=bool(spec.get('old')), centre=spec.get('centre', 1822e6))
                 self.d = katdal.open(fn, time_offset=off, keepdims=spec['keepdims'])
                 self.stored_ts = list(ts)
                 ant0 = 'ant1'
@@ -380,10 +397,20 @@ class Fixture:
                 fn = os.path.join(self.tmp, '1500000000.h5')
                 self.cbf_dump = dt / spec['cbf_div']
                 self.upper, self.centroid = not spec['lower'], spec['centroid']
+                if 'axis' not in spec:        # witnesses recorded before the frequency axis was modelled
+                    spec = dict(spec, band='u' if spec['lower'] else '', l0_centre=None,
+                                bandwidth=856e6 if spec['lower'] else 856e6 / 4096 * F,
+                                centre_param=428e6 if spec['lower'] else 1284e6)
+                    self.spec = spec
                 self.st, _, ts = cf.write_v3(fn, T=T, F=F, ants=ants, dt=dt, acts=spec['acts'], targets=spec['targets'],
                                              labels=spec['labels'], dup_last=self.dup, centroid=self.centroid,
-                                             lower=spec['lower'], cbf_dt=self.cbf_dump, grid4=grid4, hist=hist)
-                kw = dict(band='u', centre_freq=428e6) if spec['lower'] else dict(centre_freq=1284e6)
+                                             lower=spec['lower'], cbf_dt=self.cbf_dump, grid4=grid4, hist=hist,
+                                             bandwidth=spec['bandwidth'], l0_centre=spec['l0_centre'])
+                kw = {}
+                if spec['band']:
+                    kw['band'] = spec['band']
+                if spec['centre_param'] is not None:
+                    kw['centre_freq'] = spec['centre_param']
                 self.d = katdal.open(fn, time_offset=off, keepdims=spec['keepdims'], **kw)
                 self.stored_ts = list(ts)
                 ant0 = 'm000'
@@ -439,8 +466,17 @@ class Fixture:
             self.exp_ts = dict(v1=lambda: st_ts / 1000.0 + 0.5 * dt + off, v2=lambda: st_ts + 0.5 * dt + off,
                                v3=lambda: st_ts + (0.0 if self.centroid else 0.5 * self.cbf_dump) + off,
                                v4=lambda: st_ts)[fmt]()
+            # the frequency axis from what the FILE says (v1 / v2 / v3: wire_1003; v4: telstate attributes, wire_1002)
+            self.axis = None
+            if fmt != 'v4':
+                self.fattrs = self.freq_attrs()
+                self.axis_case = [1003, [FMT_ID[fmt], self.fattrs]]
+                doc_freqs, cw = None, None      # filled in by check_axis (needs the model)
+            else:
+                doc_freqs, cw = v4_freqs, V4_CW
+            self.doc_freqs = doc_freqs
             # AssertionError: outside the vocabulary / grid of C02
-            self.ob = C01Observation(d, self.exp_ts, freqs=v4_freqs if fmt == 'v4' else None)
+            self.ob = C01Observation(d, self.exp_ts, freqs=None if fmt != 'v4' else v4_freqs)
             self.T, self.F = T, F
             self.cps_full = [(str(a), str(b)) for a, b in d.subarrays[0].corr_products]
             self.B = len(self.cps_full)
@@ -464,6 +500,54 @@ class Fixture:
         return [FMT_ID[self.fmt], self.obs_wire, int(self.dup), int(self.upper), int(self.centroid), list(self.segs),
                 [q(s['dt']), q(self.cbf_dump), q(s['off'])], [q(t) for t in self.stored_ts],
                 [[i, wire_selarg(v)] for i, v in sorted(atoms.items())]]
+
+    def freq_attrs(self):
+        """What was WRITTEN about the frequency axis (wire form of DataSetFreq.fattrs)."""
+        s, F = self.spec, self.spec['F']
+        opt = lambda v: [] if v is None else [q(v)]       # noqa: E731
+        if self.fmt == 'v1':
+            return [q(1822e6), q(1e6), F, 0, codes(''), [], [], []]
+        if self.fmt == 'v2':
+            c = s.get('centre', 1822e6)
+            return [q(c + 4200e6 if s.get('old') else c), q(390625.0 * F), F, int(bool(s.get('old'))), codes(''), [], [], []]
+        return [q(0), q(s['bandwidth']), F, 0, codes(s['band']), opt(s['l0_centre']), opt(s['centre_param']), []]
+
+    def check_axis(self, ctx):
+        """v1 / v2 / v3: the model's spectral window (translated constructor calls) and the documented axis of the stored
+        attributes; from now on `chan_freqs` (the oracle of every freqs comparison) and the sideband given to the model
+        of the history come from there, not from the data set."""
+        if self.fmt == 'v4' or self.axis is not None:
+            return
+        out = ctx.model([self.axis_case])[0]
+        case = dict(hid=dict(kind='axis'), spec=self.spec, fail_at=0, ops=['open'])
+        if not out:
+            ctx.disagree('fmt=%s;attr=freqs;what=model_builds_no_window' % self.fmt, case, None, None,
+                         'the model of the reader builds no spectral window for these attributes', kind='tie')
+            self.axis = False
+            return
+        win, model_fq, spec_fq, m_lower, s_lower = out
+        self.axis = dict(model=[unq(p) for p in model_fq], spec=[unq(p) for p in spec_fq], lower=bool(s_lower))
+        if model_fq != spec_fq or m_lower != s_lower:
+            ctx.disagree('fmt=%s;attr=freqs;what=model_vs_spec' % self.fmt, case, model_fq[:4], spec_fq[:4],
+                         'the frequency axis built by the reader (as translated) is not the documented axis of the stored '
+                         'attributes', kind='tie')
+        self.chan_freqs = np.array([float(x) for x in self.axis['spec']])
+        self.upper = not self.axis['lower']
+        got = [Fraction(float(x)) for x in np.asarray(self.d.spectral_windows[0].channel_freqs, dtype=float)]
+        side = int(self.d.spectral_windows[0].sideband)
+        ctx.count('axis=%s:%s' % (self.fmt, self.spec.get('axis', 'old' if self.spec.get('old') else 'plain')))
+        if got != self.axis['spec'] or (side == -1) != self.axis['lower']:
+            what = 'flipped' if got == self.axis['spec'][::-1] else 'differs'
+            if len(got) == len(self.axis['spec']) and got:
+                sh = set(g - e for g, e in zip(got, self.axis['spec']))
+                if len(sh) == 1 and got != self.axis['spec']:
+                    what = 'offset'
+            ctx.disagree('fmt=%s;attr=channel_freqs;axis=%s;what=%s' % (
+                self.fmt, self.spec.get('axis', 'old' if self.spec.get('old') else 'plain'), what), case,
+                [float(x) for x in got[:6]] + [side], [float(x) for x in self.axis['spec'][:6]] + [-1 if self.axis['lower'] else 1],
+                'channel frequencies / sideband of the spectral window are not the documented ones of the stored '
+                'attributes (centre, bandwidth, band, version, L0 attribute, centre_freq argument)',
+                spec=[float(x) for x in self.axis['spec'][:6]])
 
     def model_case(self, atoms, ops):
         """The wire case of one history: wire_1 (v1 / v2 / v3: cfg + operations); wire_1002 (v4: what is STORED -- shape
@@ -1049,6 +1133,7 @@ def type_of_exc(s):
 
 def run_one(ctx, fx, hseed, nops, hid, note=True, script=None):
     rng = random.Random(hseed)
+    fx.check_axis(ctx)
     ops, log, atoms = run_impl(fx, rng, nops, script=script)
     mcase = fx.model_case(atoms, ops)
     mouts = ctx.model([mcase])[0]
@@ -1150,7 +1235,10 @@ def fixture_plan(ctx):
     nf = ctx.scale(5, 30)
     nh = ctx.scale(24, 80)
     # v4: more data sets (opened with / without a preselection), fewer histories on each
-    return [(fmt, nf, nh) if fmt != 'v4' else (fmt, ctx.scale(12, 48), ctx.scale(12, 50)) for fmt in FMTS]
+    # v2 / v3: the frequency-axis variants (old v2 files; v3 receiver bands, fake UHF, faulty bandwidth, overrides)
+    plan = dict(v1=(nf, nh), v2=(ctx.scale(7, 30), ctx.scale(18, 80)), v3=(ctx.scale(9, 40), ctx.scale(14, 60)),
+                v4=(ctx.scale(12, 48), ctx.scale(12, 50)))
+    return [(fmt,) + plan[fmt] for fmt in FMTS]
 
 
 def run(ctx):
